@@ -1,4 +1,4 @@
-package integration
+package l4rdp
 
 // Engine "mcodec": WireGuard, Winbox and RDP wire-message codecs (C18) and their matchers (C04 no
 // panic / bounded allocation, C06 verdict chain over every prefix, C14 verdict vs an independent
@@ -20,14 +20,12 @@ import (
 	"runtime"
 	"strconv"
 	"strings"
-	"testing"
 	"time"
 
 	"github.com/caddyserver/caddy/v2"
 	"go.uber.org/zap"
 
 	"github.com/mholt/caddy-l4/layer4"
-	"github.com/mholt/caddy-l4/modules/l4rdp"
 	"github.com/mholt/caddy-l4/modules/l4winbox"
 	"github.com/mholt/caddy-l4/modules/l4wireguard"
 )
@@ -135,8 +133,8 @@ func mcCodecs() []mcCodec {
 	wbBuild := func(ints []uint64, blobs [][]byte) *l4winbox.MessageAuth {
 		return &l4winbox.MessageAuth{PublicKeyParity: uint8(ints[0]), PublicKeyBytes: blobs[0], Username: string(blobs[1])}
 	}
-	tokBuild := func(ints []uint64, blobs [][]byte) *l4rdp.RDPToken {
-		return &l4rdp.RDPToken{Version: uint8(ints[0]), Reserved: uint8(ints[1]), Length: uint16(ints[2]), LengthIndicator: uint8(ints[3]),
+	tokBuild := func(ints []uint64, blobs [][]byte) *RDPToken {
+		return &RDPToken{Version: uint8(ints[0]), Reserved: uint8(ints[1]), Length: uint16(ints[2]), LengthIndicator: uint8(ints[3]),
 			TypeCredit: uint8(ints[4]), DstRef: uint16(ints[5]), SrcRef: uint16(ints[6]), ClassOptions: uint8(ints[7]), Optional: blobs[0]}
 	}
 	return []mcCodec{
@@ -205,7 +203,7 @@ func mcCodecs() []mcCodec {
 		},
 		{tag: "rdp_tpkt", coq: "TTpkt", bounds: []int{4},
 			from: func(b []byte) ([]uint64, [][]byte, []byte, error) {
-				h := &l4rdp.TPKTHeader{}
+				h := &TPKTHeader{}
 				if err := h.FromBytes(b); err != nil {
 					return nil, nil, nil, err
 				}
@@ -213,7 +211,7 @@ func mcCodecs() []mcCodec {
 				return []uint64{uint64(h.Version), uint64(h.Reserved), uint64(h.Length)}, [][]byte{}, o, err
 			},
 			to: func(i []uint64, b [][]byte) []byte {
-				o, _ := (&l4rdp.TPKTHeader{Version: byte(i[0]), Reserved: byte(i[1]), Length: uint16(i[2])}).ToBytes()
+				o, _ := (&TPKTHeader{Version: byte(i[0]), Reserved: byte(i[1]), Length: uint16(i[2])}).ToBytes()
 				return o
 			},
 			gen:      func(r *vRng) ([]uint64, [][]byte) { return []uint64{mcEdge8(r), mcEdge8(r), mcEdge16(r)}, [][]byte{} },
@@ -222,7 +220,7 @@ func mcCodecs() []mcCodec {
 		},
 		{tag: "rdp_x224", coq: "TX224", bounds: []int{7},
 			from: func(b []byte) ([]uint64, [][]byte, []byte, error) {
-				x := &l4rdp.X224Crq{}
+				x := &X224Crq{}
 				if err := x.FromBytes(b); err != nil {
 					return nil, nil, nil, err
 				}
@@ -230,7 +228,7 @@ func mcCodecs() []mcCodec {
 				return []uint64{uint64(x.Length), uint64(x.TypeCredit), uint64(x.DstRef), uint64(x.SrcRef), uint64(x.ClassOptions)}, [][]byte{}, o, err
 			},
 			to: func(i []uint64, b [][]byte) []byte {
-				o, _ := (&l4rdp.X224Crq{Length: uint8(i[0]), TypeCredit: uint8(i[1]), DstRef: uint16(i[2]), SrcRef: uint16(i[3]), ClassOptions: uint8(i[4])}).ToBytes()
+				o, _ := (&X224Crq{Length: uint8(i[0]), TypeCredit: uint8(i[1]), DstRef: uint16(i[2]), SrcRef: uint16(i[3]), ClassOptions: uint8(i[4])}).ToBytes()
 				return o
 			},
 			gen: func(r *vRng) ([]uint64, [][]byte) {
@@ -241,7 +239,7 @@ func mcCodecs() []mcCodec {
 		},
 		{tag: "rdp_negreq", coq: "TNegReq", bounds: []int{8},
 			from: func(b []byte) ([]uint64, [][]byte, []byte, error) {
-				x := &l4rdp.RDPNegReq{}
+				x := &RDPNegReq{}
 				if err := x.FromBytes(b); err != nil {
 					return nil, nil, nil, err
 				}
@@ -249,7 +247,7 @@ func mcCodecs() []mcCodec {
 				return []uint64{uint64(x.Type), uint64(x.Flags), uint64(x.Length), uint64(x.Protocols)}, [][]byte{}, o, err
 			},
 			to: func(i []uint64, b [][]byte) []byte {
-				o, _ := (&l4rdp.RDPNegReq{Type: uint8(i[0]), Flags: uint8(i[1]), Length: uint16(i[2]), Protocols: uint32(i[3])}).ToBytes()
+				o, _ := (&RDPNegReq{Type: uint8(i[0]), Flags: uint8(i[1]), Length: uint16(i[2]), Protocols: uint32(i[3])}).ToBytes()
 				return o
 			},
 			gen:      func(r *vRng) ([]uint64, [][]byte) { return []uint64{mcEdge8(r), mcEdge8(r), mcEdge16(r), mcEdge32(r)}, [][]byte{} },
@@ -258,7 +256,7 @@ func mcCodecs() []mcCodec {
 		},
 		{tag: "rdp_corrinfo", coq: "TCorr", bounds: []int{36},
 			from: func(b []byte) ([]uint64, [][]byte, []byte, error) {
-				x := &l4rdp.RDPCorrInfo{}
+				x := &RDPCorrInfo{}
 				if err := x.FromBytes(b); err != nil {
 					return nil, nil, nil, err
 				}
@@ -266,7 +264,7 @@ func mcCodecs() []mcCodec {
 				return []uint64{uint64(x.Type), uint64(x.Flags), uint64(x.Length)}, [][]byte{x.Identity[:], x.Reserved[:]}, o, err
 			},
 			to: func(i []uint64, b [][]byte) []byte {
-				x := &l4rdp.RDPCorrInfo{Type: uint8(i[0]), Flags: uint8(i[1]), Length: uint16(i[2])}
+				x := &RDPCorrInfo{Type: uint8(i[0]), Flags: uint8(i[1]), Length: uint16(i[2])}
 				mcArr(x.Identity[:], b[0])
 				mcArr(x.Reserved[:], b[1])
 				o, _ := x.ToBytes()
@@ -280,7 +278,7 @@ func mcCodecs() []mcCodec {
 		},
 		{tag: "rdp_token", coq: "TToken", bounds: []int{11, 11 + 36},
 			from: func(b []byte) ([]uint64, [][]byte, []byte, error) {
-				x := &l4rdp.RDPToken{}
+				x := &RDPToken{}
 				if err := x.FromBytes(b); err != nil {
 					return nil, nil, nil, err
 				}
@@ -473,6 +471,21 @@ func mcRunCodecs(e *mcEnv) {
 				}
 				mcCodecFrom(e, &c, s[:l], near)
 			}
+		}
+		// a valid message followed by 1..3 more bytes; Winbox: the delimiter as the last payload byte
+		for k := 0; k < 12; k++ {
+			var s []byte
+			if c.tag == "winbox_auth" {
+				s = mcWbSeedOfLen(r, []int{37, 60, 257, 258, 270, 293, 300}[k%7])
+			} else {
+				ints, blobs := c.gen(r)
+				s = c.to(ints, blobs)
+			}
+			mcCodecFrom(e, &c, mcCat(s, r.Bytes(1+k%3)), true)
+		}
+		if c.tag == "winbox_auth" {
+			mcCodecFrom(e, &c, mcCat([]byte{35, 6}, bytesRepeat('a', 34), []byte{0}), true)
+			mcCodecFrom(e, &c, mcCat([]byte{255, 6}, bytesRepeat('a', 255), []byte{2, 0xFF, 'a', 0}), true)
 		}
 		// well-formed values over the field ranges, and single-byte corruptions of their encodings
 		nv := e.n / 2
